@@ -1,2 +1,3 @@
+import PytaskProofs.AuditTool
 import PytaskProofs.Properties.C01
 import PytaskProofs.Properties.C19
